@@ -1,6 +1,7 @@
 import BbRe.Model.Quota
 import BbRe.Lemmas.Quota
 import BbRe.Lemmas.BitmapSpec
+import BbRe.Lemmas.BitmapDrain
 /-!
 # C15 (allocator and quota half) — storage sectors and quota are conserved
 
@@ -198,6 +199,20 @@ theorem bitmap_free_inverts_alloc {n : Nat} {st : State} (hinv : Inv n st) {max 
     rw [Bool.eq_iff_iff]
     simp [AllocSpec.inRun, List.mem_range'_1]
     omega
+
+/-- **The full capacity is available again after freeing everything**: from any state
+satisfying the invariant (in particular any reachable one, however fragmented), freeing all
+allocated sectors and then calling `AllocateContiguous(max)` `n` times (any `max ≥ 1`) leaves
+every sector `1 … n` allocated; by `bitmap_meets_spec.alloc_ok` each of these calls hands out
+only sectors that were free, so all `n` sectors are handed out, each exactly once. -/
+theorem bitmap_full_capacity_after_free_all {n : Nat} {st : State} (hinv : Inv n st) (max : Nat)
+    (hmax : 1 ≤ max) :
+    ∃ st', freeList st (allocatedList n st) = some st' ∧ (∀ s, abs n st' s = false) ∧
+      ∀ s, 1 ≤ s → s ≤ n → abs n (allocRepeat st' max n) s = true := by
+  obtain ⟨st', e, hinv', h0⟩ := bitmap_free_all_initial hinv
+  refine ⟨st', e, h0, ?_⟩
+  have := allocRepeat_full (n := n) max hmax n st' hinv' (freeCount_le _ _)
+  exact full_of_freeCount_eq_zero this.2
 
 example : Inv 130 (new 130) := new_inv 130
 example : ∃ first count, (alloc (new 130) 200).2 = some (first, count) :=
